@@ -27,6 +27,7 @@ import . "github.com/pbenner/autodiff/logarithmetic"
 
 import . "github.com/pbenner/autodiff"
 import . "github.com/pbenner/threadpool"
+import   "github.com/pbenner/autodiff/verifhook"
 
 /* -------------------------------------------------------------------------- */
 
@@ -134,6 +135,8 @@ func (obj *HmmStdDataSet) EvaluateLogPdf(edist []ScalarPdf, pool ThreadPool) err
   g := pool.NewJobGroup()
   // evaluate emission distributions
   if err := pool.AddRangeJob(0, n, g, func(i int, pool ThreadPool, erf func() error) error {
+    verifhook.Yield("vectorEstimator.hmm_data.job")
+    verifhook.Event("vectorEstimator.hmm_data", i, pool.GetThreadId())
     if erf() != nil {
       return nil
     }
@@ -152,6 +155,7 @@ func (obj *HmmStdDataSet) EvaluateLogPdf(edist []ScalarPdf, pool ThreadPool) err
   }); err != nil {
     return fmt.Errorf("evaluating emission probabilities failed: %v", err)
   }
+  verifhook.Yield("vectorEstimator.hmm_data.queued")
   if err := pool.Wait(g); err != nil {
     return fmt.Errorf("evaluating emission probabilities failed: %v", err)
   }
@@ -263,6 +267,8 @@ func (obj *HmmSummarizedDataSet) EvaluateLogPdf(edist []ScalarPdf, pool ThreadPo
   g := pool.NewJobGroup()
   // evaluate emission distributions
   if err := pool.AddRangeJob(0, n, g, func(i int, pool ThreadPool, erf func() error) error {
+    verifhook.Yield("vectorEstimator.hmm_data.job")
+    verifhook.Event("vectorEstimator.hmm_data", i, pool.GetThreadId())
     if erf() != nil {
       return nil
     }
@@ -281,6 +287,7 @@ func (obj *HmmSummarizedDataSet) EvaluateLogPdf(edist []ScalarPdf, pool ThreadPo
   }); err != nil {
     return fmt.Errorf("evaluating emission probabilities failed: %v", err)
   }
+  verifhook.Yield("vectorEstimator.hmm_data.queued")
   if err := pool.Wait(g); err != nil {
     return fmt.Errorf("evaluating emission probabilities failed: %v", err)
   }
